@@ -18,7 +18,7 @@ def ob(props, rule, key, status, where="", detail="", nontrivial=True, **data):
 
 
 RULES = []
-CORPUS_RULES = {"W5", "W6", "H1", "H2", "P2", "P6", "W9", "N3", "N4", "S1", "P3", "A1", "P5", "A3", "A6", "W7d", "N5", "N6", "A8", "N8", "N9", "P8", "X5", "N10", "H3"}
+CORPUS_RULES = {"W5", "W6", "H1", "H2", "P2", "P6", "W9", "N3", "N4", "S1", "P3", "A1", "P5", "A3", "A6", "W7d", "N5", "N6", "A8", "N8", "N9", "P8", "X5", "N10", "H3", "L6"}
 
 
 def rule(name, props, floor=0, tiers=("quick", "thorough"), doc=""):
